@@ -14,7 +14,8 @@ from harness.hyp import drive
 from gens import jsonv
 
 LEVEL = "exploration"
-RULE = ("claims sets over {iss, sub, aud, exp, nbf, iat, jti, role, x} with values of every JSON type (aud also lists; strings drawn "
+RULE = ("claims sets over {iss, sub, aud, exp, nbf, iat, jti, role, x, private names that are words of the implementation (time, value, "
+        "now, leeway, ...) and every <x> with a validate_<x> / check_<x> method on the class under test} with values of every JSON type (aud also lists; strings drawn "
         "from a pool with prefix/superstring relations; null values), request options per claim = every subset of {essential, "
         "allow_blank, value, values}, now in ints, leeway 0..3600, time claims placed by construction at now-leeway-1, now-leeway, "
         "now-leeway+1, now+leeway-1, now+leeway, now+leeway+1 and far away, as int and float; implicit now through a patched clock. "
